@@ -592,9 +592,12 @@ func runHistory(cfg worldCfg, hist []absStep, seed int64) (res execResult) {
 				fail("start status/location: %+v", o)
 			} else if cfg.CustomRelay && st.Relay0 != "" && idx != st.Relay0 {
 				fail("custom relay state not used: %+v", o)
+			} else if idx == "" {
+				fail("flow tracked under an empty index: %+v", o)
 			}
 			checkFlags(o, false)
-			record(st, fmt.Sprintf("(SStart %s %s %s)", emit.Str(st.URL), emit.Str(idx), emit.Str(rid)), o)
+			custom, rnd := startDraw(cfg, st, idx, f != nil)
+			record(st, fmt.Sprintf("(SStart %s %s %s %s)", emit.Str(st.URL), custom, emit.Str(rnd), emit.Str(rid)), o)
 		case "page":
 			items := resolveJar(st.Jar)
 			o, f := startFlow(st, jarHeader(items))
@@ -624,8 +627,12 @@ func runHistory(cfg worldCfg, hist []absStep, seed int64) (res execResult) {
 			if !o.Ran && (f == nil || len(o.Cookies) != 1 || o.Cookies[0].Kind != 1) {
 				fail("page without session did not start a flow: %+v", o)
 			}
+			if !o.Ran && f != nil && idx == "" {
+				fail("flow tracked under an empty index: %+v", o)
+			}
 			checkFlags(o, false)
-			record(st, fmt.Sprintf("(SPage %s %s %s %s)", emit.Str(st.URL), jarTerm(items), emit.Str(idx), emit.Str(rid)), o)
+			custom, rnd := startDraw(cfg, st, idx, f != nil)
+			record(st, fmt.Sprintf("(SPage %s %s %s %s %s)", emit.Str(st.URL), jarTerm(items), custom, emit.Str(rnd), emit.Str(rid)), o)
 		case "answer":
 			a := &answerInfo{step: st.ID, flow: st.Flow, ok: !st.BadIdP, user: st.User, issued: roundMs(now)}
 			idp := w.idp
@@ -841,6 +848,22 @@ func runHistory(cfg worldCfg, hist []absStep, seed int64) (res execResult) {
 	return res
 }
 
+// startDraw renders the inputs of the model's track_index for a flow start: what the
+// RelayStateFunc returned (None: no func installed) and the random index.  The random
+// draw is observable only when it is used (no func, or the func returned ""): it is then
+// the index the middleware handed out; otherwise a placeholder stands for the unused draw.
+func startDraw(cfg worldCfg, st absStep, idx string, started bool) (custom, rnd string) {
+	custom = "None"
+	if cfg.CustomRelay {
+		custom = "(Some " + emit.Str(st.Relay0) + ")"
+	}
+	rnd = "unused-random-draw"
+	if started && (!cfg.CustomRelay || st.Relay0 == "") {
+		rnd = idx
+	}
+	return custom, rnd
+}
+
 // ---------- generation ----------
 var pageURLs = []string{"/protected/a?x=1", "/protected/b", "/app/c?q=a%20b&r=2", "/d/e/f", "/", "/protected/a?x=1"}
 
@@ -1009,13 +1032,38 @@ func randomHistory(c *Ctx, cfg worldCfg, maxLen int) []absStep {
 	n := 3 + r.Intn(maxLen-2)
 	mid := cfg.MidS * nsPerS
 	users := []string{"alice", "bob", "mallory"}
+	// what the installed RelayStateFunc does in this history: a unique non-empty value per request,
+	// "" always, "" for some requests, or the same value more than once
+	relayMode := r.Intn(4)
+	lastRelay := ""
+	nextRelay := func() string {
+		if !cfg.CustomRelay {
+			return ""
+		}
+		fresh := fmt.Sprintf(customRelayTemplates[r.Intn(len(customRelayTemplates))], g.nextID*1000+r.Intn(1000))
+		v := fresh
+		switch relayMode {
+		case 1:
+			v = ""
+		case 2:
+			if r.Intn(2) == 0 {
+				v = ""
+			}
+		case 3:
+			if lastRelay != "" && r.Intn(2) == 0 {
+				v = lastRelay
+			}
+		}
+		if v != "" {
+			lastRelay = v
+		}
+		return v
+	}
+	c.Count(fmt.Sprintf("hist/relay-func/custom=%v/mode=%d", cfg.CustomRelay, relayMode))
 	for len(g.steps) < n {
 		switch k := r.Intn(20); {
 		case k < 5 || len(g.starts) == 0: // start
-			st := absStep{Op: "start", URL: pageURLs[r.Intn(len(pageURLs))]}
-			if cfg.CustomRelay && r.Intn(3) != 0 {
-				st.Relay0 = fmt.Sprintf(customRelayTemplates[r.Intn(len(customRelayTemplates))], len(g.starts)*1000+r.Intn(1000))
-			}
+			st := absStep{Op: "start", URL: pageURLs[r.Intn(len(pageURLs))], Relay0: nextRelay()}
 			g.starts = append(g.starts, g.add(st))
 		case k < 9: // IdP answers some flow (or unsolicited)
 			flow := g.starts[r.Intn(len(g.starts))]
@@ -1045,7 +1093,7 @@ func randomHistory(c *Ctx, cfg worldCfg, maxLen int) []absStep {
 				// a tracking token where the session is expected
 				jar = append([]absCookie{{Src: "tracking", Step: g.starts[r.Intn(len(g.starts))], Name: "session"}}, jar...)
 			}
-			g.starts = append(g.starts, g.add(absStep{Op: "page", URL: pageURLs[r.Intn(len(pageURLs))], Jar: jar}))
+			g.starts = append(g.starts, g.add(absStep{Op: "page", URL: pageURLs[r.Intn(len(pageURLs))], Jar: jar, Relay0: nextRelay()}))
 		default: // advance
 			var dt int64
 			switch r.Intn(8) {
@@ -1159,6 +1207,21 @@ func directedHistories(cfg worldCfg) map[string][]absStep {
 			h[fmt.Sprintf("custom-relay-metachar-%02d", i)] = mk(absStep{Op: "start", URL: "/protected/a?x=1", Relay0: v}, absStep{Op: "start", URL: "/protected/b", Relay0: v + "2"},
 				answer(1, "alice"), answer(0, "bob"), deliver(2, "faithful", tr(0), tr(1)), deliver(3, "faithful", tr(0), tr(1)))
 		}
+		rs := func(u, v string) absStep { return absStep{Op: "start", URL: u, Relay0: v} }
+		// the func returns "" for every request: each flow falls back to its own random index
+		h["custom-relay-empty-interleaved"] = mk(rs("/protected/a?x=1", ""), rs("/protected/b", ""), answer(1, "alice"), answer(0, "bob"),
+			deliver(2, "faithful", tr(0), tr(1)), deliver(3, "faithful", tr(0), tr(1)))
+		h["custom-relay-empty-three-flows"] = mk(rs("/protected/a?x=1", ""), rs("/protected/b", ""), rs("/d/e/f", ""), answer(0, "alice"), answer(2, "alice"), answer(1, "alice"),
+			deliver(3, "faithful", tr(0), tr(1), tr(2)), deliver(4, "faithful", tr(0), tr(1), tr(2)), deliver(5, "faithful", tr(0), tr(1), tr(2)))
+		// "" for some requests only
+		h["custom-relay-some-empty"] = mk(rs("/protected/a?x=1", "v-1"), rs("/protected/b", ""), rs("/d/e/f", "v-2"), rs("/", ""), answer(3, "bob"), answer(1, "bob"), answer(0, "bob"), answer(2, "bob"),
+			deliver(4, "faithful", tr(0), tr(1), tr(2), tr(3)), deliver(5, "faithful", tr(0), tr(1), tr(2), tr(3)),
+			deliver(6, "faithful", tr(0), tr(1), tr(2), tr(3)), deliver(7, "faithful", tr(0), tr(1), tr(2), tr(3)))
+		// the same value twice: both cookies bear the same name; the jar is not trusted to have merged them
+		h["custom-relay-same-twice"] = mk(rs("/protected/a?x=1", "dup"), rs("/protected/b", "dup"), answer(0, "alice"), answer(1, "alice"),
+			deliver(2, "faithful", tr(0), tr(1)), deliver(3, "faithful", tr(1), tr(0)), deliver(3, "faithful", tr(1)))
+		h["custom-relay-empty-page"] = mk(absStep{Op: "page", URL: "/protected/a?x=1", Relay0: ""}, absStep{Op: "page", URL: "/protected/b", Relay0: ""}, answer(0, "alice"),
+			deliver(2, "faithful", tr(0), tr(1)))
 		h["custom-relay-state"] = mk(absStep{Op: "start", URL: "/protected/a?x=1", Relay0: "my-relay-1"}, absStep{Op: "start", URL: "/protected/b", Relay0: ""}, answer(0, "alice"), answer(1, "alice"),
 			deliver(2, "faithful", tr(0), tr(1)), deliver(3, "faithful", tr(0), tr(1)))
 	}
